@@ -1,29 +1,31 @@
 #!/bin/bash
-# Confirms, for every seeded change, in a scratch worktree of the pinned commit:
+# Confirms, for every seeded change, in a scratch worktree of the pinned commit (or of the
+# commit named in seeded/<id>/base):
 # builds; the existing suite passes (only TestRedis fails); the demonstration fails with
 # the change and passes without it.  Writes seeded/<id>/verify.txt.
 cd "$(dirname "$0")/.."
 V=$(pwd)
 PIN=dcff49b
-declare -A DIR=( [C02]=persistence/subscription/mem [C06-m1]=. [C06-m2]=pkg/packets [C09-m1]=persistence/queue/redis [C09-m2]=persistence/subscription/redis [C10]=persistence/queue/mem [C13-m2]=topicalias/fifo [C16]=plugin/federation [C17]=plugin/federation [C19]=plugin/auth )
+declare -A DIR=( [C02]=persistence/subscription/mem [C06-m1]=. [C06-m2]=pkg/packets [C09-m1]=persistence/queue/redis [C09-m2]=persistence/subscription/redis [C10]=persistence/queue/mem [C10-m3]=persistence/queue/redis [C13-m2]=topicalias/fifo [C16]=plugin/federation [C17]=plugin/federation [C19]=plugin/auth )
 one() {
   id=$1; d=$V/seeded/$id; prop=${id%%-*}
   tgt=${DIR[$id]:-${DIR[$prop]:-server}}
   wt=/tmp/sv-$id
+  pin=$PIN; [ -f $d/base ] && pin=$(cat $d/base)
   git -C /repo worktree remove --force $wt >/dev/null 2>&1
-  git -C /repo worktree add -f --detach $wt $PIN >/dev/null 2>&1 || { echo "$id worktree failed"; return; }
+  git -C /repo worktree add -f --detach $wt $pin >/dev/null 2>&1 || { echo "$id worktree failed"; return; }
   (
     cd $wt
     demo=$tgt/zz_seed_${id//-/_}_test.go
     cp $d/demo_test.go.txt $demo
     base=$(go test -mod=mod -vet=off -count=1 ./$tgt/ 2>&1 | tail -3 | tr '\n' ' ')
     basepass=$(echo "$base" | grep -c '^ok\|ok  ')
-    git apply $d/patch.diff || { echo "$id: patch does not apply to $PIN"; exit; }
+    git apply $d/patch.diff || { echo "$id: patch does not apply to $pin"; exit; }
     build=$(go build -mod=mod ./... 2>&1 | tail -2)
     with=$(go test -mod=mod -vet=off -count=1 ./$tgt/ 2>&1 | tail -3 | tr '\n' ' ')
     rm $demo
     suite=$(go test -mod=mod -vet=off -count=1 ./... 2>&1 | grep -E '^(FAIL|---)' | tr '\n' ' ')
-    echo "id=$id target=$tgt"
+    echo "id=$id target=$tgt base=$pin"
     echo "demo without change: $base"
     echo "build with change: ${build:-ok}"
     echo "demo with change: $with"
